@@ -448,16 +448,25 @@ package parse
 // good: an interface value holding a non-nil pointer (every Expr/Node implementation is a pointer type)
 //@ pred good(e Expr) = e != nil && ref(e) != 0
 //@ pred goodn(n Node) = n != nil && ref(n) != 0
-//@ pred tinv(t *Tree) = twf(t) && live(t) && t.root != nil && len(t.blocks) >= 1 && t.macros != nil
+// left: number of tokens up to and including the first terminal one that are still unread. Every parser
+// loop strictly decreases it: a loop without an EOF arm and an error arm cannot (C01).
+//@ pred left(t *Tree) = ite(tcur(t) <= t.lex.term, t.lex.term - tcur(t) + 1, 0)
+// (opaque: only the functions that push, pop or index the block stack see the definition)
+//@ opaque pred blocksOK(t *Tree) = forall i :: 0 <= i && i < len(t.blocks) ==> t.blocks[i] != nil
+//@ pred tinv(t *Tree) = twf(t) && t.root != nil && len(t.blocks) >= 1 && t.macros != nil && blocksOK(t)
 
 //@ func parse.(*Tree).parseExpr
 //@   requires tinv(t)
 //@   ensures wf: tinv(t) && tcur(t) >= old(tcur(t))
+//@   ensures bal: err == nil ==> len(t.blocks) == old(len(t.blocks))
+//@   ensures dec: err == nil ==> left(t) < old(left(t))
 //@   ensures ok: err == nil ==> good(r0) && tcur(t) > old(tcur(t))
 
 //@ func parse.(*Tree).parseInnerExpr
 //@   requires tinv(t)
 //@   ensures wf: tinv(t) && tcur(t) >= old(tcur(t))
+//@   ensures bal: err == nil ==> len(t.blocks) == old(len(t.blocks))
+//@   ensures dec: err == nil ==> left(t) < old(left(t))
 //@   ensures ok: err == nil ==> good(r0) && tcur(t) > old(tcur(t))
 //@   loop 1 invariant tinv(t) && tcur(t) >= entry(tcur(t))
 //@   loop 1 decreases left(t)
@@ -475,16 +484,22 @@ package parse
 //@ func parse.(*Tree).parseOuterExpr
 //@   requires tinv(t) && good(expr)
 //@   ensures wf: tinv(t) && tcur(t) >= old(tcur(t))
+//@   ensures bal: err == nil ==> len(t.blocks) == old(len(t.blocks))
+//@   ensures dec: err == nil ==> left(t) <= old(left(t))
 //@   ensures ok: err == nil ==> good(r0)
 
 //@ func parse.(*Tree).parseRightTestOperand
 //@   requires tinv(t)
 //@   ensures wf: tinv(t) && tcur(t) >= old(tcur(t))
+//@   ensures bal: err == nil ==> len(t.blocks) == old(len(t.blocks))
+//@   ensures dec: err == nil ==> left(t) < old(left(t))
 //@   ensures ok: err == nil ==> r0 != nil && tcur(t) > old(tcur(t))
 
 //@ func parse.(*Tree).parseFunc
 //@   requires tinv(t) && name != nil
 //@   ensures wf: tinv(t) && tcur(t) >= old(tcur(t))
+//@   ensures bal: err == nil ==> len(t.blocks) == old(len(t.blocks))
+//@   ensures dec: err == nil ==> left(t) < old(left(t))
 //@   ensures ok: err == nil ==> good(r0) && tcur(t) > old(tcur(t))
 //@   loop 1 invariant tinv(t) && tcur(t) >= entry(tcur(t))
 //@   loop 1 decreases left(t)
@@ -493,17 +508,23 @@ package parse
 //@ func parse.(*Tree).parse
 //@   requires tinv(t)
 //@   ensures wf: tinv(t) && tcur(t) >= old(tcur(t))
+//@   ensures bal: err == nil ==> len(t.blocks) == old(len(t.blocks))
+//@   ensures dec: err == nil ==> left(t) < old(left(t)) || (r0 == nil && old(left(t)) == 0)
 //@   ensures ok: err == nil && r0 != nil ==> tcur(t) > old(tcur(t))
 //@   ensures eof: err == nil && r0 == nil ==> tokAt(t, tcur(t) - 1).tokenType == tokenEOF
 
 //@ func parse.(*Tree).parseTag
 //@   requires tinv(t)
 //@   ensures wf: tinv(t) && tcur(t) >= old(tcur(t))
+//@   ensures bal: err == nil ==> len(t.blocks) == old(len(t.blocks))
+//@   ensures dec: err == nil ==> left(t) < old(left(t))
 //@   ensures ok: err == nil ==> r0 != nil && tcur(t) > old(tcur(t))
 
 //@ func parse.(*Tree).parseUntilEndTag
 //@   requires tinv(t)
 //@   ensures wf: tinv(t) && tcur(t) >= old(tcur(t))
+//@   ensures bal: err == nil ==> len(t.blocks) == old(len(t.blocks))
+//@   ensures dec: err == nil ==> left(t) < old(left(t))
 //@   ensures ok: err == nil ==> r0 != nil && tcur(t) > old(tcur(t))
 
 //@ func parse.contains
@@ -513,57 +534,82 @@ package parse
 //@ func parse.(*Tree).parseUntilTag
 //@   requires tinv(t)
 //@   ensures wf: tinv(t) && tcur(t) >= old(tcur(t))
+//@   ensures bal: err == nil ==> len(t.blocks) == old(len(t.blocks))
+//@   ensures dec: err == nil ==> left(t) < old(left(t))
 //@   ensures ok: err == nil ==> r0 != nil && tcur(t) > old(tcur(t))
-//@   loop 1 invariant tinv(t) && tcur(t) >= old(tcur(t)) && n != nil
+//@   loop 1 invariant tinv(t) && tcur(t) >= old(tcur(t)) && n != nil && len(t.blocks) == old(len(t.blocks))
 //@   loop 1 decreases left(t)
+// the push-back loop returns the cursor to the opening delimiter it peeked
+//@   loop 2 invariant tinv(t) && tcur(t) >= mark && mark >= old(tcur(t)) && n != nil && len(t.blocks) == old(len(t.blocks))
+//@   loop 2 decreases tcur(t)
 
 //@ func parse.parseExtends
 //@   requires tinv(t)
 //@   ensures wf: tinv(t) && tcur(t) >= old(tcur(t))
+//@   ensures bal: err == nil ==> len(t.blocks) == old(len(t.blocks))
+//@   ensures dec: err == nil ==> left(t) < old(left(t))
 //@   ensures ok: err == nil ==> r0 != nil && tcur(t) > old(tcur(t))
 
 //@ func parse.parseBlock
+//@   reveal blocksOK
 //@   requires tinv(t)
 //@   ensures wf: tinv(t) && tcur(t) >= old(tcur(t))
+//@   ensures bal: err == nil ==> len(t.blocks) == old(len(t.blocks))
+//@   ensures dec: err == nil ==> left(t) < old(left(t))
 //@   ensures ok: err == nil ==> r0 != nil && tcur(t) > old(tcur(t))
 
 //@ func parse.parseIf
 //@   requires tinv(t)
 //@   ensures wf: tinv(t) && tcur(t) >= old(tcur(t))
+//@   ensures bal: err == nil ==> len(t.blocks) == old(len(t.blocks))
+//@   ensures dec: err == nil ==> left(t) < old(left(t))
 //@   ensures ok: err == nil ==> r0 != nil && tcur(t) > old(tcur(t))
 
 //@ func parse.parseIfBody
 //@   requires tinv(t)
 //@   ensures wf: tinv(t) && tcur(t) >= old(tcur(t))
+//@   ensures bal: err == nil ==> len(t.blocks) == old(len(t.blocks))
+//@   ensures dec: err == nil ==> left(t) < old(left(t))
 //@   ensures ok: err == nil ==> body != nil && els != nil && tcur(t) > old(tcur(t))
-//@   loop 1 invariant tinv(t) && tcur(t) >= old(tcur(t)) && body != nil
+//@   loop 1 invariant tinv(t) && tcur(t) >= old(tcur(t)) && body != nil && len(t.blocks) == old(len(t.blocks))
 //@   loop 1 decreases left(t)
 
 //@ func parse.parseFor
 //@   requires tinv(t)
 //@   ensures wf: tinv(t) && tcur(t) >= old(tcur(t))
+//@   ensures bal: err == nil ==> len(t.blocks) == old(len(t.blocks))
+//@   ensures dec: err == nil ==> left(t) < old(left(t))
 //@   ensures ok: err == nil ==> r0 != nil && tcur(t) > old(tcur(t))
 
 //@ func parse.parseInclude
 //@   requires tinv(t)
 //@   ensures wf: tinv(t) && tcur(t) >= old(tcur(t))
+//@   ensures bal: err == nil ==> len(t.blocks) == old(len(t.blocks))
+//@   ensures dec: err == nil ==> left(t) < old(left(t))
 //@   ensures ok: err == nil ==> r0 != nil && tcur(t) > old(tcur(t))
 
 //@ func parse.parseEmbed
+//@   reveal blocksOK
 //@   requires tinv(t)
 //@   ensures wf: tinv(t) && tcur(t) >= old(tcur(t))
+//@   ensures bal: err == nil ==> len(t.blocks) == old(len(t.blocks))
+//@   ensures dec: err == nil ==> left(t) < old(left(t))
 //@   ensures ok: err == nil ==> r0 != nil && tcur(t) > old(tcur(t))
-//@   loop 1 invariant tinv(t) && tcur(t) >= old(tcur(t)) && len(t.blocks) >= 2
+//@   loop 1 invariant tinv(t) && tcur(t) >= old(tcur(t)) && len(t.blocks) == old(len(t.blocks)) + 1
 //@   loop 1 decreases left(t)
 
 //@ func parse.parseIncludeOrEmbed
 //@   requires tinv(t)
 //@   ensures wf: tinv(t) && tcur(t) >= old(tcur(t))
+//@   ensures bal: err == nil ==> len(t.blocks) == old(len(t.blocks))
+//@   ensures dec: err == nil ==> left(t) < old(left(t))
 //@   ensures ok: err == nil ==> good(expr) && tcur(t) > old(tcur(t))
 
 //@ func parse.parseUse
 //@   requires tinv(t)
 //@   ensures wf: tinv(t) && tcur(t) >= old(tcur(t))
+//@   ensures bal: err == nil ==> len(t.blocks) == old(len(t.blocks))
+//@   ensures dec: err == nil ==> left(t) < old(left(t))
 //@   ensures ok: err == nil ==> r0 != nil && tcur(t) > old(tcur(t))
 //@   loop 1 invariant tinv(t) && tcur(t) >= old(tcur(t)) && aliases != nil
 //@   loop 1 decreases left(t)
@@ -571,16 +617,22 @@ package parse
 //@ func parse.parseSet
 //@   requires tinv(t)
 //@   ensures wf: tinv(t) && tcur(t) >= old(tcur(t))
+//@   ensures bal: err == nil ==> len(t.blocks) == old(len(t.blocks))
+//@   ensures dec: err == nil ==> left(t) < old(left(t))
 //@   ensures ok: err == nil ==> r0 != nil && tcur(t) > old(tcur(t))
 
 //@ func parse.parseDo
 //@   requires tinv(t)
 //@   ensures wf: tinv(t) && tcur(t) >= old(tcur(t))
+//@   ensures bal: err == nil ==> len(t.blocks) == old(len(t.blocks))
+//@   ensures dec: err == nil ==> left(t) < old(left(t))
 //@   ensures ok: err == nil ==> r0 != nil && tcur(t) > old(tcur(t))
 
 //@ func parse.parseFilter
 //@   requires tinv(t)
 //@   ensures wf: tinv(t) && tcur(t) >= old(tcur(t))
+//@   ensures bal: err == nil ==> len(t.blocks) == old(len(t.blocks))
+//@   ensures dec: err == nil ==> left(t) < old(left(t))
 //@   ensures ok: err == nil ==> r0 != nil && tcur(t) > old(tcur(t))
 //@   loop 1 invariant tinv(t) && tcur(t) >= old(tcur(t))
 //@   loop 1 decreases left(t)
@@ -588,6 +640,8 @@ package parse
 //@ func parse.parseMacro
 //@   requires tinv(t)
 //@   ensures wf: tinv(t) && tcur(t) >= old(tcur(t))
+//@   ensures bal: err == nil ==> len(t.blocks) == old(len(t.blocks))
+//@   ensures dec: err == nil ==> left(t) < old(left(t))
 //@   ensures ok: err == nil ==> r0 != nil && tcur(t) > old(tcur(t))
 //@   loop 1 invariant tinv(t) && tcur(t) > old(tcur(t))
 //@   loop 1 decreases left(t)
@@ -595,11 +649,15 @@ package parse
 //@ func parse.parseImport
 //@   requires tinv(t)
 //@   ensures wf: tinv(t) && tcur(t) >= old(tcur(t))
+//@   ensures bal: err == nil ==> len(t.blocks) == old(len(t.blocks))
+//@   ensures dec: err == nil ==> left(t) < old(left(t))
 //@   ensures ok: err == nil ==> r0 != nil && tcur(t) > old(tcur(t))
 
 //@ func parse.parseFrom
 //@   requires tinv(t)
 //@   ensures wf: tinv(t) && tcur(t) >= old(tcur(t))
+//@   ensures bal: err == nil ==> len(t.blocks) == old(len(t.blocks))
+//@   ensures dec: err == nil ==> left(t) < old(left(t))
 //@   ensures ok: err == nil ==> r0 != nil && tcur(t) > old(tcur(t))
 //@   loop 1 invariant tinv(t) && tcur(t) > old(tcur(t)) && imports != nil
 //@   loop 1 decreases left(t)
@@ -607,6 +665,35 @@ package parse
 //@ func parse.parseVerbatim
 //@   requires tinv(t)
 //@   ensures wf: tinv(t) && tcur(t) >= old(tcur(t))
+//@   ensures bal: err == nil ==> len(t.blocks) == old(len(t.blocks))
+//@   ensures dec: err == nil ==> left(t) < old(left(t))
 //@   ensures ok: err == nil ==> r0 != nil && tcur(t) > old(tcur(t))
 //@   loop 1 invariant tinv(t) && tcur(t) > old(tcur(t))
 //@   loop 1 decreases left(t)
+
+// Entry points. streamOK(t.lex) is assumption A4 (the lexer side proves its half: terminal token last,
+// channel closed, G1); the structural part of tinv is established by NewNamedTree.
+//@ func parse.NewNamedTree
+//@   ensures fresh: result != nil && result.root != nil && result.lex != nil && result.macros != nil
+//@   ensures stacks: len(result.read) == 0 && len(result.unread) == 0 && ref(result.read) != ref(result.unread)
+//@   ensures blocks: len(result.blocks) == 1 && result.blocks[0] != nil
+//@ func parse.NewTree
+//@   ensures tstruct(result)
+
+//@ pred tstruct(t *Tree) = t.lex != nil && t.root != nil && t.macros != nil && len(t.read) == 0 && len(t.unread) == 0 && ref(t.read) != ref(t.unread) && len(t.blocks) == 1 && t.blocks[0] != nil
+//@ func parse.(*Tree).Parse
+//@   reveal window, blocksOK
+//@   requires tstruct(t)
+//@   assume a4: streamOK(t.lex) && t.lex.rcv == 0
+//@   loop 1 invariant tinv(t)
+//@   loop 1 decreases left(t)
+//@   loop 2 invariant true
+
+//@ func parse.(*Tree).traverse
+//@ func parse.(*Tree).enter
+//@   loop 1 invariant true
+//@ func parse.(*Tree).leave
+//@   loop 1 invariant true
+//@ func parse.(*Tree).enrichError
+//@ func parse.newLexer
+//@   ensures init: result != nil && result.start == 0 && result.pos == 0 && result.line == 1 && result.offset == 0 && result.mode == modeNormal && result.parens == 0
